@@ -74,6 +74,8 @@ pub enum Signal {
     Noise,
     /// all zeros
     Zero,
+    /// silence written as -0.0: equal to zero in every comparison, a different bit pattern
+    NegZero,
     /// the Noise sequence of channel `ch + offset` (single-channel twins)
     NoiseCh(usize),
     /// the Noise sequence scaled by 2^-26 (peak 1.5e-8): a valid, very quiet signal; everything
@@ -117,6 +119,7 @@ impl Signal {
                 (h >> 44) as f64 / 524288.0 - 1.0
             }
             Signal::Zero => 0.0,
+            Signal::NegZero => -0.0,
             Signal::NoiseCh(off) => Signal::Noise.at(ch + off, n),
             Signal::NoiseQuiet => Signal::Noise.at(ch, n) * (2.0f64).powi(-26),
             Signal::NoiseTiny => Signal::Noise.at(ch, n) * (2.0f64).powi(-120),
